@@ -149,6 +149,7 @@ func main() {
 	fl := lib.ParseFlags()
 	out := lib.OpenOut(fl.Out)
 	defer out.Close()
+	lib.ProbeC01(out)
 	if fl.Replay != "" {
 		replay(out, fl.Replay)
 		return
@@ -228,6 +229,13 @@ func main() {
 				proto = kindProto(v)
 				if v.Kind == lib.KInt && v.I.Cmp(lib.Two63) >= 0 {
 					proto = "any"
+				}
+			} else if (v.Kind == lib.KMap || v.Kind == lib.KList) && ops[0].Code != "XN" && rng.Chance(15) {
+				// the same script against a bindnode builder ({String:Any} / [Any]): a typed
+				// implementation within its schema's value space
+				ts := copyTargets(v)
+				if last := ts[len(ts)-1]; last == "bindmap" || last == "bindlist" {
+					proto = last
 				}
 			}
 			var mutants []*lib.Val
